@@ -1105,10 +1105,8 @@ pub fn huge_chunk_base_with(r: &mut Rng, compressed_cel: bool, neutral: bool) ->
     }
     let fi = (s.durations.len() - 1) as u16;
     s.cels.retain(|c| !(c.layer == li && c.frame == fi));
-    let mut px = vec![0u8; w as usize * h as usize * 4];
-    for (i, b) in px.iter_mut().enumerate() {
-        *b = (i as u32).wrapping_mul(2654435761).rotate_left(9) as u8;
-    }
+    // incompressible noise: the chunk stays above 1 MiB even when the cel is zlib-compressed
+    let px = r.bytes(w as usize * h as usize * 4);
     s.cels.push(spec::CelSpec {
         frame: fi,
         layer: li,
